@@ -48,6 +48,19 @@ def root_name(e: ast.AST) -> str | None:
     return n.id if isinstance(n, ast.Name) else None
 
 
+def _scalar(fn: Fn, a: ast.AST) -> bool:
+    t = fn.type_of(a)
+    ms = list(t[1]) if t[0] == "union" else [t]
+    return bool(ms) and all(m[0] == "b" and m[1] in ("bool", "str", "int", "none", "float") for m in ms)
+
+
+def _passes(fn: Fn, call: ast.Call) -> bool:
+    if isinstance(call.func, ast.Name) and call.func.id in ("list", "tuple", "set", "frozenset", "sorted", "cast", "iter", "reversed"):
+        return True
+    cs, how = fn.callees(call)
+    return how == "ctor" or (bool(cs) and all(f.name in ("__init__", "__post_init__") for f in cs))
+
+
 class Provenance:
     def __init__(
         self,
@@ -59,6 +72,7 @@ class Provenance:
         passes: "Callable[[ast.Call], bool] | None" = None,
         init: "dict[str, Tags] | None" = None,
         depth: int = 0,
+        self_tags: "Tags | None" = None,
     ) -> None:
         """source(call, tags of the positional arguments) -> tags of the call's result (None: not a source);
         attr_tags(attribute expression) -> additional tags of an attribute read;
@@ -74,14 +88,16 @@ class Provenance:
         self.passes = passes
         self.init = dict(init or {})
         self.depth = depth
+        self.self_tags = self_tags  # inside a helper method: what the receiver object carries (its fields are not tracked one by one)
         self.tags: dict[int, Tags] = {}
         self.before: dict[int, dict[str, Tags]] = {}
         self._run()
 
     # ------------------------------------------------------------------ state
-    @staticmethod
-    def default(key: str) -> Tags:
-        return frozenset({f"pre:{key}"}) if key.startswith("self.") else EMPTY
+    def default(self, key: str) -> Tags:
+        if key.startswith("self."):
+            return self.self_tags if self.self_tags is not None else frozenset({f"pre:{key}"})
+        return EMPTY
 
     def get(self, st: dict[str, Tags], key: str) -> Tags:
         return st[key] if key in st else self.default(key)
@@ -104,9 +120,29 @@ class Provenance:
         return out, changed
 
     # ------------------------------------------------------------------ driver
+    def _definite(self, loop: ast.AST) -> bool:
+        """`for x in (a, b):` - a loop over a non-empty literal runs its body at least once."""
+        if not isinstance(loop, (ast.For, ast.AsyncFor)) or loop.orelse:
+            return False
+        try:
+            it = self.fn.expand(loop.iter)
+        except Exception:  # noqa: BLE001
+            return False
+        return isinstance(it, (ast.Tuple, ast.List)) and bool(it.elts)
+
     def _run(self) -> None:
         g = self.fn.cfg.g
-        states: dict[object, dict[str, Tags]] = {ENTRY: dict(self.init)}
+        edge: dict[tuple[int, int], dict[str, Tags]] = {}
+        definite = {id(n): {id(x) for st_ in n.body for x in ast.walk(st_)} for n in g.nodes if isinstance(n, ast.AST) and self._definite(n)}
+
+        def joined(states: list) -> dict[str, Tags] | None:
+            if not states:
+                return None
+            out = dict(states[0])
+            for st_ in states[1:]:
+                out, _ = self._join(out, st_)
+            return out
+
         work = [ENTRY]
         steps = 0
         while work:
@@ -114,25 +150,41 @@ class Provenance:
             steps += 1
             if steps > 20000:
                 break
-            st = dict(states.get(n, {}))
+            if n is ENTRY:
+                st = dict(self.init)
+            else:
+                st = joined([edge[(id(p), id(n))] for p in g.predecessors(n) if (id(p), id(n)) in edge])
+                if st is None:
+                    continue
+            out = dict(st)
             if isinstance(n, ast.AST):
                 self.before[id(n)] = dict(st)
-                self._stmt(n, st)
+                self._stmt(n, out)
             skip = None
             if isinstance(n, ast.If) and self.assume is not None:
                 known = self.assume(n, self.before[id(n)])
                 if known is not None:
                     skip = not known
             for m in g.successors(n):
-                if skip is not None and g[n][m].get("labels") == {skip}:
+                labels = g[n][m].get("labels")
+                if skip is not None and labels == {skip}:
                     continue
-                if m not in states:
-                    states[m] = dict(st)
+                o = out
+                if id(n) in definite and labels == {False}:
+                    # the loop is left only after at least one pass through its body
+                    back = joined([edge[(id(p), id(n))] for p in g.predecessors(n) if id(p) in definite[id(n)] and (id(p), id(n)) in edge])
+                    if back is None:
+                        continue
+                    o = dict(back)
+                    self._stmt(n, o)
+                old = edge.get((id(n), id(m)))
+                if old is None:
+                    edge[(id(n), id(m))] = dict(o)
                     work.append(m)
                 else:
-                    new, changed = self._join(states[m], st)
+                    new, changed = self._join(old, o)
                     if changed:
-                        states[m] = new
+                        edge[(id(n), id(m))] = new
                         work.append(m)
 
     # ------------------------------------------------------------------ statements
@@ -194,21 +246,30 @@ class Provenance:
         callee = self.fn.callee(call)
         if callee is None or isinstance(callee.node, ast.Lambda) or callee.is_property:
             return None
-        if not (callee.name.startswith("_") or callee.outer is not None or callee.cls is None):
-            return None
         a = callee.node.args
-        if a.vararg or a.kwarg or any(isinstance(x, ast.Starred) for x in call.args) or any(k.arg is None for k in call.keywords):
+        if a.vararg or a.kwarg or any(k.arg is None for k in call.keywords):
             return None
         pos = [p.arg for p in [*a.posonlyargs, *a.args]]
         if callee.cls is not None and callee.outer is None and not callee.is_staticmethod and pos:
             pos = pos[1:]
         init: dict[str, Tags] = {}
         values = list(argtags)
-        for p, t in zip(pos, values[: len(call.args)]):
+        i = 0
+        for x, t in zip(call.args, values[: len(call.args)]):
+            if isinstance(x, ast.Starred):
+                for p in pos[i:]:  # f(*xs): every remaining positional parameter may receive an element of xs
+                    init[p] = init.get(p, EMPTY) | t
+                i = len(pos)
+            elif i < len(pos):
+                init[pos[i]] = t
+                i += 1
+        for p, t in []:
             init[p] = t
         for k, t in zip(call.keywords, values[len(call.args):]):
             init[k.arg] = t
-        sub = Provenance(Fn(self.fn.repo, callee), lambda c, a_: None, self.scalar, None, None, self.passes, init, self.depth + 1)
+        recv = self.of(call.func.value) if isinstance(call.func, ast.Attribute) else EMPTY
+        sub_fn = Fn(self.fn.repo, callee)
+        sub = Provenance(sub_fn, lambda c, a_: None, lambda x: _scalar(sub_fn, x), None, None, lambda c: _passes(sub_fn, c), init, self.depth + 1, recv)
         out = EMPTY
         found = False
         from core.loader import own_nodes
